@@ -7,7 +7,9 @@
    the steps whose status / body / directory contents / stop flag differ (evaluated with vm_compute under coqc).
    Texts, notebooks, diffs and decision lists are numbered by the harness (canonical JSON -> N). *)
 From Coq Require Import List NArith ZArith Bool String.
-From NB Require Import Base.Json Gen.ServerFacts Sys.Server.
+From NB Require Import Base.Json.
+From NB Require Import Gen.ServerFacts.
+From NB Require Import Sys.Server.
 Import ListNotations.
 Local Open Scope list_scope.
 
